@@ -76,6 +76,18 @@ pub fn normalize_symmetric(angle: f64) -> f64 {
     angle - PI * angle.signum()
 }
 
+/// Reduce a longitude difference (lon - lon_0) to [-π, π]: a longitude written
+/// on the far side of the date line from the central meridian (-179.5 where
+/// lon_0 = 179) is the same meridian as the one 360 degrees further on.
+/// Differences already in range are returned bit for bit (with a little slack,
+/// as in PROJ's adjlon, so values at ±π stay on their side despite rounding).
+pub fn reduce_longitude_difference(dlon: f64) -> f64 {
+    if dlon.abs() > 3.14159265359 {
+        return normalize_symmetric(dlon);
+    }
+    dlon
+}
+
 /// normalize arbitrary angles to [0, 2π)
 pub fn normalize_positive(angle: f64) -> f64 {
     use std::f64::consts::PI;
